@@ -120,6 +120,8 @@ volatile int vh_force_busy = 0;
 void (*vh_hook_before_lock)(void) = NULL;
 void (*vh_hook_locked)(void) = NULL;
 void (*vh_hook_unlocked)(void) = NULL;
+void (*vh_hook_lock_failed)(void) = NULL;
+void (*vh_hook_unlock_failed)(void) = NULL;
 
 #ifdef VH_SANITIZER
 /* sanitizer builds: no link-time wrapping; the sanitizer is the monitor */
@@ -290,9 +292,10 @@ char *__wrap_strncpy(char *d, const char *s, size_t m) {
 /* ---- lock tracer ---- */
 int __wrap_pthread_mutex_trylock(pthread_mutex_t *m) {
     if (vh_hook_before_lock) vh_hook_before_lock();
-    if (vh_force_busy > 0) { vh_force_busy--; return EBUSY; }
+    if (vh_force_busy > 0) { vh_force_busy--; if (vh_hook_lock_failed) vh_hook_lock_failed(); return EBUSY; }
     int r = __real_pthread_mutex_trylock(m);
     if (r == 0) { __sync_add_and_fetch(&vh_locks, 1); if (vh_hook_locked) vh_hook_locked(); }
+    else if (vh_hook_lock_failed) vh_hook_lock_failed();
     return r;
 }
 int __wrap_pthread_mutex_lock(pthread_mutex_t *m) {
@@ -304,6 +307,7 @@ int __wrap_pthread_mutex_lock(pthread_mutex_t *m) {
 int __wrap_pthread_mutex_unlock(pthread_mutex_t *m) {
     int r = __real_pthread_mutex_unlock(m);
     if (r == 0) { __sync_add_and_fetch(&vh_unlocks, 1); if (vh_hook_unlocked) vh_hook_unlocked(); }
+    else if (vh_hook_unlock_failed) vh_hook_unlock_failed();
     return r;
 }
 int __wrap_usleep(useconds_t u) { (void) u; __sync_add_and_fetch(&vh_usleeps, 1); return 0; }
